@@ -23,3 +23,6 @@ Proof. exact (graph_no_wait_deadlock _ grp progs n s0 s wait_graph_okb_holds). Q
 
 Lemma table_covers_waits_l : wait_coverage_okb waits members = true.
 Proof. vm_compute. reflexivity. Qed.
+
+Lemma waited_goroutines_always_started_l : started_okb launches closers chan_waits = true.
+Proof. vm_compute. reflexivity. Qed.
